@@ -16,6 +16,14 @@ import Carquet.Impl.Dictionary
 import Carquet.Impl.Bitpack
 import Carquet.Impl.Crc32
 import Carquet.Spec.Sbbf
+import Carquet.Impl.BitIO
+import Carquet.Impl.BufferReader
+import Carquet.Impl.CFun3.BitReader
+import Carquet.Impl.CFun3.BitWriter
+import Carquet.Impl.CFun3.BufReader
+import Carquet.Impl.CFun3.ThriftDec
+import Carquet.Impl.CFun3.RleDec
+import Carquet.Impl.Rle
 /-
 Driver op of the translator self-check (component `cfun`, harness/ops_cfun.c):
 
@@ -297,8 +305,268 @@ def handle2 (l : Line) : Verdict :=
             verdict [("defined_flag", !df)] (if claim then [("model_link_defined_" ++ e.name, false)] else [])
   | _, _ => .bad "cfun2 args"
 
+/-! ### stage 3 (`cfun3`): struct arguments travel as the list of their leaf values -/
+
+/-- the model side of the link theorem of a stage-3 function (lean/Carquet/Properties/Cnn/Impl.CFun3.lean), evaluated inside
+the theorem's hypotheses on the arguments `g` (by parameter name; a struct is the `Val.a` of its leaves) and compared with
+the results `r` of the real C function; `none`: outside the hypotheses / no executable model -/
+def modelLink3 (f : String) (g : String → Val) (r : List Val) : Option Bool :=
+  let rd := Gen.CFun.carquet_bit_reader_t.ofLeaves
+  let wr := Gen.CFun.carquet_bit_writer_t.ofLeaves
+  let br := Gen.CFun.carquet_buffer_reader_t.ofLeaves
+  let rA := fun (i : Nat) => vA (r.getD i (Val.n 0))
+  let rN := fun (i : Nat) => vN (r.getD i (Val.n 0))
+  let nonneg32 := fun (nm : String) => vN (g nm) < 2 ^ 31
+  match f with
+  -- A. bit reader (C11_cfun_bit_reader_*, C11_cfun_refill_buffer)
+  | "carquet_bit_reader_init" =>
+    let data := vBytes (g "data")
+    if vN (g "size") == data.length then
+      some (Impl.CFun3.rdAbs (rd (rA 0)) data == Impl.BitIO.Reader.init data && Impl.CFun3.rdInv (rd (rA 0)) data) else none
+  | "refill_buffer" =>
+    let data := vBytes (g "reader_data")
+    let s := rd (vA (g "reader"))
+    if Impl.CFun3.rdInv s data then
+      some (Impl.CFun3.rdAbs (rd (rA 0)) data == (Impl.BitIO.refill (Impl.CFun3.rdAbs s data)).1 && Impl.CFun3.rdInv (rd (rA 0)) data) else none
+  | "carquet_bit_reader_read_bit" =>
+    let data := vBytes (g "reader_data")
+    let s := rd (vA (g "reader"))
+    if Impl.CFun3.rdInv s data then
+      let m := Impl.BitIO.readBit (Impl.CFun3.rdAbs s data)
+      some (sInt 32 (rN 0) == m.1 && Impl.CFun3.rdAbs (rd (rA 1)) data == m.2.1 && Impl.CFun3.rdInv (rd (rA 1)) data) else none
+  | "carquet_bit_reader_read_bits" =>
+    let data := vBytes (g "reader_data")
+    let s := rd (vA (g "reader"))
+    if Impl.CFun3.rdInv s data && nonneg32 "num_bits" then
+      let m := Impl.BitIO.readBits (Impl.CFun3.rdAbs s data) (vN (g "num_bits"))
+      some (rN 0 == m.1 && Impl.CFun3.rdAbs (rd (rA 1)) data == m.2.1 && Impl.CFun3.rdInv (rd (rA 1)) data) else none
+  | "carquet_bit_reader_read_bits64" =>
+    let data := vBytes (g "reader_data")
+    let s := rd (vA (g "reader"))
+    if Impl.CFun3.rdInv s data && nonneg32 "num_bits" then
+      let m := Impl.BitIO.readBits64 (Impl.CFun3.rdAbs s data) (vN (g "num_bits"))
+      some (rN 0 == m.1 && Impl.CFun3.rdAbs (rd (rA 1)) data == m.2.1 && Impl.CFun3.rdInv (rd (rA 1)) data) else none
+  | "carquet_bit_reader_has_more" =>
+    let s := rd (vA (g "reader"))
+    -- the data array is not an argument: any array of the right length stands for it
+    if s.data == 0 && s.byte_pos.toNat ≤ s.size.toNat && s.size.toNat ≤ 100000 && s.buffer_bits.toNat ≤ 64 then
+      some (rN 0 == b2n (Impl.BitIO.hasMore (Impl.CFun3.rdAbs s (List.replicate (if s.size.toNat ≤ 100000 then s.size.toNat else 0) 0)))) else none
+  | "carquet_bit_reader_remaining_bits" =>
+    let s := rd (vA (g "reader"))
+    if s.data == 0 && s.byte_pos.toNat ≤ s.size.toNat && s.size.toNat ≤ 100000 && s.buffer_bits.toNat ≤ 64 then
+      some (rN 0 == Impl.BitIO.remainingBits (Impl.CFun3.rdAbs s (List.replicate (if s.size.toNat ≤ 100000 then s.size.toNat else 0) 0))) else none
+  -- A. bit writer (C11_cfun_bit_writer_*, C11_cfun_flush_buffer)
+  | "carquet_bit_writer_init" =>
+    let data := vBytes (g "data")
+    if vN (g "capacity") ≤ data.length then
+      some (Impl.CFun3.wrAbs (wr (rA 0)) (rA 1 |>.map UInt8.ofNat) == Impl.BitIO.Writer.init (vN (g "capacity")) &&
+            Impl.CFun3.wrInv (wr (rA 0)) (rA 1 |>.map UInt8.ofNat) && rA 1 == vA (g "data")) else none
+  | "flush_buffer" | "carquet_bit_writer_write_bit" | "carquet_bit_writer_write_bits" | "carquet_bit_writer_write_bits64"
+  | "carquet_bit_writer_flush" =>
+    let data := vBytes (g "writer_data")
+    let s := wr (vA (g "writer"))
+    let pre := if f == "flush_buffer" then Impl.CFun3.wrFlushInv s data
+               else Impl.CFun3.wrInv s data && (f == "carquet_bit_writer_write_bit" || f == "carquet_bit_writer_flush" || nonneg32 "num_bits")
+    if pre then
+      let w := Impl.CFun3.wrAbs s data
+      let m := if f == "flush_buffer" then Impl.BitIO.flushBuffer w
+               else if f == "carquet_bit_writer_write_bit" then Impl.BitIO.writeBit w (vN (g "bit"))
+               else if f == "carquet_bit_writer_write_bits" then Impl.BitIO.writeBits w (vN (g "value")) (vN (g "num_bits"))
+               else if f == "carquet_bit_writer_write_bits64" then Impl.BitIO.writeBits64 w (vN (g "value")) (vN (g "num_bits"))
+               else Impl.BitIO.flush w
+      let s' := wr (rA 0)
+      let data' := (rA 1).map UInt8.ofNat
+      some (Impl.CFun3.wrAbs s' data' == m && Impl.CFun3.wrInv s' data' && data'.length == data.length &&
+            data'.drop s'.byte_pos.toNat == data.drop s'.byte_pos.toNat) else none
+  | "carquet_bit_writer_bytes_written" =>
+    let s := wr (vA (g "writer"))
+    some (rN 0 == s.byte_pos.toNat)
+  -- B. buffer read cursor (C08_cfun_buffer_reader_*)
+  | "carquet_buffer_reader_init_data" =>
+    let data := vBytes (g "data")
+    if Impl.CFun3.brInitPre data (BitVec.ofNat 64 (vN (g "size"))) then
+      some (Impl.CFun3.brAbs (br (rA 0)) data == Impl.BufferReader.init data && Impl.CFun3.brInv (br (rA 0)) data) else none
+  | "carquet_buffer_reader_skip" =>
+    let s := br (vA (g "reader"))
+    if s.data == 0 && s.pos.toNat ≤ s.size.toNat && s.size.toNat ≤ 100000 then
+      let data := List.replicate (if s.size.toNat ≤ 100000 then s.size.toNat else 0) (0 : UInt8)
+      let m := Impl.BufferReader.step true (Impl.CFun3.brAbs s data) (.skip (vN (g "size")))
+      some (Impl.CFun3.brAbs (br (rA 1)) data == m.next && Impl.CFun3.stObs (BitVec.ofNat 32 (rN 0)) == m.obs) else none
+  | "carquet_buffer_reader_read" =>
+    let data := vBytes (g "reader_data")
+    let s := br (vA (g "reader"))
+    if Impl.CFun3.brInv s data then
+      let n := vN (g "size")
+      let m := Impl.BufferReader.step true (Impl.CFun3.brAbs s data) (.read n)
+      some (Impl.CFun3.brAbs (br (rA 1)) data == m.next &&
+            Impl.CFun3.bytesObs (BitVec.ofNat 32 (rN 0)) ((rA 2).map UInt8.ofNat) n == m.obs &&
+            (rA 2).drop n == (vA (g "dest")).drop n) else none
+  | "carquet_buffer_reader_read_byte" | "carquet_buffer_reader_read_u16_le" | "carquet_buffer_reader_read_u32_le"
+  | "carquet_buffer_reader_read_u64_le" =>
+    let data := vBytes (g "reader_data")
+    let s := br (vA (g "reader"))
+    if Impl.CFun3.brInv s data then
+      let op : Impl.BufferReader.Op := if f == "carquet_buffer_reader_read_byte" then .readByte
+        else if f == "carquet_buffer_reader_read_u16_le" then .readU16
+        else if f == "carquet_buffer_reader_read_u32_le" then .readU32 else .readU64
+      let m := Impl.BufferReader.step true (Impl.CFun3.brAbs s data) op
+      some (Impl.CFun3.brAbs (br (rA 1)) data == m.next && Impl.CFun3.valObs (BitVec.ofNat 32 (rN 0)) (rN 2) == m.obs &&
+            (rN 0 == 0 || (r.getD 2 (Val.n 0)) == g "value")) else none
+  -- D. carquet_bitunpack_32 (C11_cfun_bitunpack_32)
+  | "carquet_bitunpack_32" =>
+    let input := vBytes (g "input")
+    let w := vN (g "bit_width")
+    let count := vN (g "count")
+    if w ≤ 32 && count < 2 ^ 61 && count ≤ (vA (g "values")).length && (vA (g "temp_indet")).length == 8 &&
+       (Impl.Bitpack.unpack w input count).2 ≤ input.length then
+      some (rN 0 == (Impl.Bitpack.unpack w input count).2 &&
+            rA 1 == (Impl.Bitpack.unpack w input count).1 ++ (vA (g "values")).drop count) else none
+  -- E. RLE decoder pieces (C11_cfun_rle_decoder_*, C11_cfun_fill_bitpack_buffer): the untouched C fields in_rle_run / rle_value as false / 0
+  | "carquet_rle_decoder_init" =>
+    let data := vBytes (g "data")
+    if vN (g "size") == data.length then
+      let s' := Gen.CFun.carquet_rle_decoder_t.ofLeaves (rA 0)
+      some (Impl.CFun3.rleAbs false 0 s' data == Impl.Rle.Dec.init (vN (g "bit_width")) data && Impl.CFun3.rleInv s' data) else none
+  | "carquet_rle_decoder_has_next" =>
+    let s := Gen.CFun.carquet_rle_decoder_t.ofLeaves (vA (g "dec"))
+    let data := List.replicate (if s.size.toNat ≤ 100000 then s.size.toNat else 0) (0 : UInt8)
+    if s.size.toNat ≤ 100000 && Impl.CFun3.rleInv s data then
+      some (rN 0 == b2n (Impl.Rle.hasNext (Impl.CFun3.rleAbs false 0 s data))) else none
+  | "fill_bitpack_buffer" =>
+    let s := Gen.CFun.carquet_rle_decoder_t.ofLeaves (vA (g "dec"))
+    let data := vBytes (g "dec_data")
+    if Impl.CFun3.rleInv s data && s.status == 0#32 then
+      let m := Impl.Rle.fill (Impl.CFun3.rleAbs false 0 s data)
+      let s' := Gen.CFun.carquet_rle_decoder_t.ofLeaves (rA 1)
+      some (rN 0 == b2n m.1 && Impl.CFun3.rleAbs false 0 s' data == m.2 && Impl.CFun3.rleInv s' data) else none
+  -- C. Thrift compact decoder primitives (C13_cfun_*): ghost fields overlay = false, budget = 0
+  | "set_error" =>
+    let s := Gen.CFun.thrift_decoder_t.ofLeaves (vA (g "dec"))
+    -- the data array is not an argument; the latch does not look at it
+    let data := List.replicate (if s.reader.size.toNat ≤ 100000 then s.reader.size.toNat else 0) (0 : UInt8)
+    (match [Impl.Thrift.Err.invalidArgument, .oom, .invalidMetadata, .decode, .encode, .invalidType, .truncated].find?
+            (fun e => e.code == vN (g "status")) with
+     | some e =>
+       if s.reader.size.toNat ≤ 100000 && Impl.CFun3.decInv s data then
+         some (Impl.CFun3.decAbs false 0 (Gen.CFun.thrift_decoder_t.ofLeaves (rA 0)) data ==
+                 (Impl.CFun3.decAbs false 0 s data).setError e) else none
+     | none => none)
+  | "thrift_read_struct_begin" | "thrift_read_struct_end" =>
+    let s := Gen.CFun.thrift_decoder_t.ofLeaves (vA (g "dec"))
+    let data := List.replicate (if s.reader.size.toNat ≤ 100000 then s.reader.size.toNat else 0) (0 : UInt8)
+    if s.reader.size.toNat ≤ 100000 && Impl.CFun3.decInv s data then
+      let d := Impl.CFun3.decAbs false 0 s data
+      let s' := Gen.CFun.thrift_decoder_t.ofLeaves (rA 0)
+      some (Impl.CFun3.decAbs false 0 s' data == (if f == "thrift_read_struct_begin" then Impl.Thrift.structBegin d else Impl.Thrift.structEnd d)
+            && Impl.CFun3.decInv s' data) else none
+  | "read_byte_raw" | "thrift_read_varint" | "thrift_read_zigzag" | "thrift_read_byte" | "thrift_read_i16" | "thrift_read_i32"
+  | "thrift_read_i64" | "thrift_read_bool" =>
+    let s := Gen.CFun.thrift_decoder_t.ofLeaves (vA (g "dec"))
+    let data := vBytes (g "dec_reader_data")
+    if Impl.CFun3.decInv s data then
+      let d := Impl.CFun3.decAbs false 0 s data
+      let s' := Gen.CFun.thrift_decoder_t.ofLeaves (rA 1)
+      let st := Impl.CFun3.decAbs false 0 s' data
+      some (Impl.CFun3.decInv s' data &&
+        (match f with
+         | "read_byte_raw" => rN 0 == (Impl.Thrift.readByteRaw d).1.toNat && st == (Impl.Thrift.readByteRaw d).2
+         | "thrift_read_varint" => rN 0 == (Impl.Thrift.readVarint d).1 && st == (Impl.Thrift.readVarint d).2
+         | "thrift_read_zigzag" => sInt 64 (rN 0) == (Impl.Thrift.readZigzag d).1 && st == (Impl.Thrift.readZigzag d).2
+         | "thrift_read_byte" => sInt 8 (rN 0) == (Impl.Thrift.readI8 d).1 && st == (Impl.Thrift.readI8 d).2
+         | "thrift_read_i16" => sInt 16 (rN 0) == (Impl.Thrift.readI16 d).1 && st == (Impl.Thrift.readI16 d).2
+         | "thrift_read_i32" => sInt 32 (rN 0) == (Impl.Thrift.readI32 d).1 && st == (Impl.Thrift.readI32 d).2
+         | "thrift_read_i64" => sInt 64 (rN 0) == (Impl.Thrift.readI64 d).1 && st == (Impl.Thrift.readI64 d).2
+         | _ => rN 0 == b2n (Impl.Thrift.readBool d).1 && st == (Impl.Thrift.readBool d).2)) else none
+  | "thrift_read_field_begin" =>
+    let s := Gen.CFun.thrift_decoder_t.ofLeaves (vA (g "dec"))
+    let data := vBytes (g "dec_reader_data")
+    if Impl.CFun3.decInv s data then
+      let m := Impl.Thrift.readFieldBegin (Impl.CFun3.decAbs false 0 s data)
+      let s' := Gen.CFun.thrift_decoder_t.ofLeaves (rA 1)
+      some (Impl.CFun3.decAbs false 0 s' data == m.dec && rN 0 == b2n m.more && rN 2 == m.ty && sInt 16 (rN 3) == m.fid &&
+            Impl.CFun3.decInv s' data) else none
+  | "thrift_read_list_begin" =>
+    let s := Gen.CFun.thrift_decoder_t.ofLeaves (vA (g "dec"))
+    let data := vBytes (g "dec_reader_data")
+    if Impl.CFun3.decInv s data then
+      let m := Impl.Thrift.readListBegin (Impl.CFun3.decAbs false 0 s data)
+      let s' := Gen.CFun.thrift_decoder_t.ofLeaves (rA 0)
+      some (Impl.CFun3.decAbs false 0 s' data == m.dec && rN 1 == m.elemTy && sInt 32 (rN 2) == m.count &&
+            Impl.CFun3.decInv s' data) else none
+  | _ => none
+
+/-- the hypotheses of the `…_defined` link theorem of a stage-3 function hold for these arguments: the theorem says the
+call is free of undefined behaviour, so a regenerated `_defined = false` here is a concrete input on which the (changed) C
+function reads or writes out of bounds / shifts too far / overflows / runs out of fuel -/
+def definedClaim3 (f : String) (g : String → Val) : Bool :=
+  let rd := Gen.CFun.carquet_bit_reader_t.ofLeaves
+  let wr := Gen.CFun.carquet_bit_writer_t.ofLeaves
+  let br := Gen.CFun.carquet_buffer_reader_t.ofLeaves
+  let nonneg32 := fun (nm : String) => vN (g nm) < 2 ^ 31
+  match f with
+  | "carquet_bit_reader_init" | "carquet_bit_reader_has_more" | "carquet_bit_reader_remaining_bits"
+  | "carquet_bit_writer_init" | "carquet_bit_writer_bytes_written" | "carquet_buffer_reader_init_data"
+  | "carquet_buffer_reader_skip" => true
+  | "refill_buffer" | "carquet_bit_reader_read_bit" => Impl.CFun3.rdInv (rd (vA (g "reader"))) (vBytes (g "reader_data"))
+  | "carquet_bit_reader_read_bits" | "carquet_bit_reader_read_bits64" =>
+    Impl.CFun3.rdInv (rd (vA (g "reader"))) (vBytes (g "reader_data")) && nonneg32 "num_bits"
+  | "flush_buffer" => Impl.CFun3.wrFlushInv (wr (vA (g "writer"))) (vBytes (g "writer_data"))
+  | "carquet_bit_writer_write_bit" | "carquet_bit_writer_flush" => Impl.CFun3.wrInv (wr (vA (g "writer"))) (vBytes (g "writer_data"))
+  | "carquet_bit_writer_write_bits" | "carquet_bit_writer_write_bits64" =>
+    Impl.CFun3.wrInv (wr (vA (g "writer"))) (vBytes (g "writer_data")) && nonneg32 "num_bits"
+  | "carquet_buffer_reader_read" =>
+    Impl.CFun3.brInv (br (vA (g "reader"))) (vBytes (g "reader_data")) && vN (g "size") ≤ (vA (g "dest")).length
+  | "carquet_buffer_reader_read_byte" | "carquet_buffer_reader_read_u16_le" | "carquet_buffer_reader_read_u32_le"
+  | "carquet_buffer_reader_read_u64_le" => Impl.CFun3.brInv (br (vA (g "reader"))) (vBytes (g "reader_data"))
+  | "carquet_bitunpack_32" =>
+    vN (g "bit_width") ≤ 32 && vN (g "count") < 2 ^ 61 && vN (g "count") ≤ (vA (g "values")).length &&
+    (vA (g "temp_indet")).length == 8 &&
+    (Impl.Bitpack.unpack (vN (g "bit_width")) (vBytes (g "input")) (vN (g "count"))).2 ≤ (vA (g "input")).length
+  | "carquet_rle_decoder_has_next" => true
+  | "carquet_rle_decoder_init" => vN (g "size") == (vA (g "data")).length
+  | "fill_bitpack_buffer" =>
+    let s := Gen.CFun.carquet_rle_decoder_t.ofLeaves (vA (g "dec"))
+    Impl.CFun3.rleInv s (vBytes (g "dec_data")) && s.status == 0#32
+  | "set_error" => true
+  | "read_byte_raw" | "thrift_read_varint" | "thrift_read_zigzag" | "thrift_read_byte" | "thrift_read_i16" | "thrift_read_i32"
+  | "thrift_read_i64" | "thrift_read_bool" | "thrift_read_field_begin" | "thrift_read_list_begin" =>
+    Impl.CFun3.decInv (Gen.CFun.thrift_decoder_t.ofLeaves (vA (g "dec"))) (vBytes (g "dec_reader_data"))
+  | "thrift_read_struct_begin" | "thrift_read_struct_end" =>
+    let s := Gen.CFun.thrift_decoder_t.ofLeaves (vA (g "dec"))
+    s.reader.size.toNat ≤ 100000 && Impl.CFun3.decInv s (List.replicate (if s.reader.size.toNat ≤ 100000 then s.reader.size.toNat else 0) (0 : UInt8))
+  | _ => false
+
+def handle3 (l : Line) : Verdict :=
+  match l.inStr "f", l.inNat "d" with
+  | some f, some d =>
+    match Gen.CFun.table3.find? (·.name == f) with
+    | none => .bad s!"cfun3: unknown function {f}"
+    | some e =>
+      match allSome (e.args.zipIdx.map (fun p => parseVal p.1.2 (l.inStr s!"a{p.2}"))) with
+      | none => .bad s!"cfun3: {f}: bad arguments"
+      | some a =>
+        match e.eval a with
+        | none => .bad s!"cfun3: {f} takes {e.args.length} arguments"
+        | some (v, df) =>
+          let kv := (e.args.map (·.1)).zip a
+          let g := fun k => ((kv.find? (·.1 == k)).map (·.2)).getD (Val.n 0)
+          if l.outStr "missing" == some "1" then verdict [("c_wrapper_exists", false)] []
+          else if d == 1 then
+            match allSome (e.outs.zipIdx.map (fun p => parseVal p.1.2 (l.outStr s!"r{p.2}"))) with
+            | some r =>
+              let link := match modelLink3 e.name g r with
+                | some b => [("model_link_" ++ e.name, b)]
+                | none => []
+              verdict ([("defined_flag", df), ("cfun_value", v == r),
+                        ("no_ubsan_report_when_defined", (l.outNat "ub").getD 0 == 0)]) link
+            | none => .bad "cfun3: d=1 but results missing"
+          else
+            verdict [("defined_flag", !df)] (if definedClaim3 e.name g then [("model_link_defined_" ++ e.name, false)] else [])
+  | _, _ => .bad "cfun3 args"
+
 def handle (l : Line) : Option Verdict :=
   match l.op with
+  | "cfun3" => some (handle3 l)
   | "cfun2" => some (handle2 l)
   | "cfun" => some <|
     match l.inStr "f", l.inNats "a", l.inNat "d" with
